@@ -9,6 +9,7 @@ import datetime
 from torchtt._decomposition import QR, SVD, rl_orthogonal, lr_orthogonal
 from torchtt._iterative_solvers import BiCGSTAB_reset, gmres_restart
 import opt_einsum as oe
+from torchtt import _verif
 
 def local_product(Phi_right, Phi_left, coreA, core, shape):
     """
@@ -113,6 +114,7 @@ def amen_divide(a, b, nswp = 22, x0 = None, eps = 1e-10,rmax = 100, max_full = 5
     Phis_b = [tn.ones((1,1), dtype = dtype, device = device)] + [None] * (d-1) + [tn.ones((1,1), dtype = dtype, device = device)] # size is rk x rbk
 
     last = False
+    _verif.emit('amen_begin', routine='divide', S=[int(n) for n in N], rx=[int(r) for r in rx], nswp=int(nswp), kick=int(kickrank+kick2), max_full=int(max_full))
 
     normA = np.ones((d-1))
     normb = np.ones((d-1))
@@ -292,6 +294,7 @@ def amen_divide(a, b, nswp = 22, x0 = None, eps = 1e-10,rmax = 100, max_full = 5
                 r = u.shape[1]
                 s = tn.ones(r,  dtype = dtype, device = device)
 
+            _r_tr, _r_add = int(r), 0
             u = u[:,:r]
             v = tn.diag(s[:r]) @ v[:r,:]
             v = v.t()
@@ -321,10 +324,12 @@ def amen_divide(a, b, nswp = 22, x0 = None, eps = 1e-10,rmax = 100, max_full = 5
                     uk = left_b - left_res # rx_k x N_k x rz_k+1
                     u, Rmat = QR(tn.cat((u,tn.reshape(uk,[u.shape[0],-1])),1))
                     r_add = uk.shape[2]
+                    _r_add = int(r_add)
                     v = tn.cat((v,tn.zeros([rx[k+1],r_add],  dtype = dtype, device = device)), 1)
                     v = v @ Rmat.t()
                  
                 r = u.shape[1]
+                _verif.emit('amen_step', swp=int(swp), k=int(k), rows=int(u.shape[0]), cols=int(rx[k+1]), use_full=bool(use_full), r_tr=_r_tr, r_add=_r_add, r_out=int(r), last=bool(last))
                 # print(u.shape,v.shape,x_cores[k+1].shape)
                 v = tn.einsum('ji,jkl->ikl',v,x_cores[k+1])
                 # remove norm correction
@@ -386,6 +391,7 @@ def amen_divide(a, b, nswp = 22, x0 = None, eps = 1e-10,rmax = 100, max_full = 5
         print('Finished after' ,swp,' sweeps and ',time_total)
         print()
     normx = np.exp(np.sum(np.log(normx))/d)
+    _verif.emit('amen_end', rx=[int(r) for r in rx], sweeps=int(swp)+1, last=bool(last))
 
     for k in range(d):
         x_cores[k] *= normx
